@@ -158,8 +158,13 @@ func (s *scope) isRedeclared(n *node) bool {
 }
 
 func (s *scope) rangeChanType(n *node) *itype {
+	if len(n.child) != 3 {
+		// The range over a channel has one iteration variable at most: in the form
+		// with a key and a value, child[1] is the value variable, not the ranged expression.
+		return nil
+	}
 	if sym, _, found := s.lookup(n.child[1].ident); found {
-		if t := sym.typ; len(n.child) == 3 && t != nil && (t.cat == chanT || t.cat == chanRecvT) {
+		if t := sym.typ; t != nil && (t.cat == chanT || t.cat == chanRecvT) {
 			return t
 		}
 	}
